@@ -51,7 +51,7 @@ CONSTANTS MainIns,     \* subset of {"init", "sub"}: where the program lives
           Stmts,       \* subset of {"def","class","assign","ann","annonly","from","import","ref"}
           Decos,       \* subset of {"none","static","class","prop","cprop"}
           Asyncs,      \* subset of BOOLEAN
-          Sigs,        \* subset of {"s0","s1","s2"}
+          Sigs,        \* subset of {"s0","s1","s2","s3"}
           Docs,        \* docstring shapes of defs and classes
           ModDocs,     \* docstring shapes of the main module
           Vals,        \* subset of {"lit","none"}
@@ -123,6 +123,8 @@ SigParams(s) ==
                      PS("y", "positional or keyword", TRUE)>>
     [] s = "s2" -> <<PS("va", "variadic positional", FALSE), PS("k", "keyword-only", FALSE),
                      PS("kd", "keyword-only", TRUE), PS("kw", "variadic keyword", FALSE)>>
+    \* `*, kd=2, k, ko=3`: keyword-only parameters with mixed defaults (optional before required)
+    [] s = "s3" -> <<PS("kd", "keyword-only", TRUE), PS("k", "keyword-only", FALSE), PS("ko", "keyword-only", TRUE)>>
 \* the implicit first parameter; in shape s1 the `/` marker makes it positional-only as well
 FirstParam(inClass, deco, s) ==
   LET k == IF s = "s1" THEN "positional-only" ELSE "positional or keyword"
@@ -135,9 +137,10 @@ Variadic(k) == k \in {"variadic positional", "variadic keyword"}
 PP(n, k, r) == [name |-> n, kind |-> k, req |-> r]
 \* visitor: get_parameters gives *args the default "()" and **kwargs "{}"; Parameter.required == default is None
 StaticParams(ps) == [i \in 1..Len(ps) |-> PP(ps[i].name, ps[i].kind, ~ps[i].dflt /\ ~Variadic(ps[i].kind))]
-\* inspector: _convert_parameter: kind through _kind_map, default None iff parameter.default is empty
+\* inspector: _convert_parameter: kind through _kind_map; *args / **kwargs get the defaults "()" / "{}" like the
+\* visitor's, otherwise default None iff parameter.default is empty
 KindMap(k) == k
-DynParams(ps) == [i \in 1..Len(ps) |-> PP(ps[i].name, KindMap(ps[i].kind), ~ps[i].dflt)]
+DynParams(ps) == [i \in 1..Len(ps) |-> PP(ps[i].name, KindMap(ps[i].kind), ~ps[i].dflt /\ ~Variadic(ps[i].kind))]
 \* CPython: a parameter must be supplied iff it has no default and is not variadic
 PyParams(ps) == [i \in 1..Len(ps) |-> PP(ps[i].name, ps[i].kind, ~ps[i].dflt /\ ~Variadic(ps[i].kind))]
 
@@ -251,9 +254,12 @@ VisitFrom(t, k) ==
      THEN t          \* `from . import other` in an __init__ module: skipped (whatever the current scope is)
      ELSE SetMember(t, Scope \o <<name>>, SNode("alias", <<>>, "-", <<>>, FromTarget(k.what), {}, "from", "-", "none"))
 
-\* Visitor.visit_import for `import pkg.other`: alias_path = alias_name = "pkg"
-VisitImport(t) ==
-  SetMember(t, Scope \o <<"pkg">>, SNode("alias", <<>>, "-", <<>>, <<"pkg">>, {}, "import", "-", "none"))
+\* Visitor.visit_import for `import pkg.other [as x]`: without asname alias_path = alias_name = "pkg" (first component),
+\* with asname the alias x points at the full dotted path
+VisitImport(t, k) ==
+  IF k.as = "-"
+  THEN SetMember(t, Scope \o <<"pkg">>, SNode("alias", <<>>, "-", <<>>, <<"pkg">>, {}, "import", "-", "none"))
+  ELSE SetMember(t, Scope \o <<k.as>>, SNode("alias", <<>>, "-", <<>>, <<"pkg", "other">>, {}, "import", "-", "none"))
 
 \* ------------------------------------------------------------------------------------------
 \* runtime object graph (CPython)
@@ -373,9 +379,13 @@ StmtFrom ==
 
 StmtImport ==
   /\ Budget /\ "import" \in Stmts
-  /\ LET k == Tok("import", "-", "-", FALSE, "-", "-", "-", "-", "-", "-", FALSE)
-         b == BindIn(WithSubmoduleAttr(heap), frames, "pkg", PkgId, Len(prog) + 1)
-     IN /\ st' = VisitImport(st) /\ heap' = b[1] /\ frames' = b[2] /\ Push(k)
+  /\ \E as \in AsNames :
+       LET k == Tok("import", "-", "-", FALSE, "-", "-", "-", "-", as, "-", FALSE)
+           \* `import pkg.other` binds the top package, `import pkg.other as x` binds the submodule itself
+           b == IF as = "-" THEN BindIn(WithSubmoduleAttr(heap), frames, "pkg", PkgId, Len(prog) + 1)
+                ELSE BindIn(WithSubmoduleAttr(heap), frames, as, OtherId, Len(prog) + 1)
+       IN /\ RebindOk(VisitImport(st, k))
+          /\ st' = VisitImport(st, k) /\ heap' = b[1] /\ frames' = b[2] /\ Push(k)
   /\ UNCHANGED nid /\ Same
 
 \* `n = src` where src is bound (in this body or globally): the same object under a second name
@@ -484,7 +494,8 @@ InspScope(o, ids, rel, fuel) ==
   UNION {InspChild(o, ids, rel, n, fuel) : n \in {m \in Candidates(o) : Pick(o, ids, m)}}
 
 \* Inspector.get_module: ancestors of a submodule are placeholder nodes ObjectNode(None, part)
-RootIds == IF main = "init" THEN {PkgId} ELSE {SubId, NoneId}
+\* ObjectNode._ids: a node whose obj is None (placeholder) contributes no id
+RootIds == IF main = "init" THEN {PkgId} ELSE {SubId} \cup {}
 InspectMain ==
   LET S == InspScope(MainId, RootIds, <<>>, 3)
   IN [p \in {x[1] : x \in S} |-> (CHOOSE x \in S : x[1] = p)[2]]
@@ -536,12 +547,9 @@ Cause(t, d, p, clause) ==
       o == IF hasS THEN t[p].origin ELSE "absent"
   IN IF o = "annonly" /\ clause \in {"members", "kind"} THEN "annonly"
      ELSE IF o = "ref" /\ clause = "kind" THEN "ref"
-     ELSE IF clause = "members" /\ o \in {"assign", "ann"} /\ ~hasD /\ main = "sub" /\ t[p].val = "none" THEN "none-in-submodule"
-     ELSE IF clause = "members" /\ o = "ref" /\ ~hasD /\ main = "sub" /\ t[p].val = "none" THEN "none-in-submodule"
      ELSE IF clause = "members" /\ o = "import" /\ ~hasD /\ main = "init" THEN "import-self"
      ELSE IF clause = "members" /\ ~hasS /\ hasD /\ main = "init" /\ Len(p) >= 2 /\ Last(p) = "other" THEN "from-dot-in-class"
      ELSE IF clause = "params" /\ hasS /\ "classmethod" \in t[p].labels THEN "classmethod-cls"
-     ELSE IF clause = "required" THEN "variadic-required"
      ELSE IF clause = "doc" /\ (IF p = <<>> THEN mdoc ELSE t[p].dshape) = "deep" THEN "double-cleandoc"
      ELSE IF clause = "bases" /\ hasS /\ Bvia(t, p) = "annonly" THEN "annonly"
      ELSE IF clause = "bases" /\ hasS /\ Rebound(t, p) THEN "base-rebound"
@@ -595,10 +603,8 @@ DiffsExplained == Done => \A x \in diffs : x.cause # "none"
 DiffsComplete == Done => ((diffs = {}) <=> (skS = skD))
 \* one invariant per recorded root cause: TLC's counterexample is the defect's witness program
 NoAnnOnly == Done => \A x \in diffs : x.cause # "annonly"
-NoNoneInSubmodule == Done => \A x \in diffs : x.cause # "none-in-submodule"
 NoClassmethodCls == Done => \A x \in diffs : x.cause # "classmethod-cls"
 NoImportSelf == Done => \A x \in diffs : x.cause # "import-self"
-NoVariadicRequired == Done => \A x \in diffs : x.cause # "variadic-required"
 NoDoubleCleandoc == Done => \A x \in diffs : x.cause # "double-cleandoc"
 NoBaseRebound == Done => \A x \in diffs : x.cause # "base-rebound"
 NoRef == Done => \A x \in diffs : x.cause # "ref"
